@@ -78,6 +78,7 @@ type txnLine struct {
 	Delivered []lab.Delivery `json:"delivered"`
 	// what the peer saw, per generation: tokens of data frames received from the library
 	PeerRx    []txnPeerRx `json:"peer_rx"`
+	trace     *txnTrace
 	M0        txnMetrics  `json:"m0"`
 	M1        txnMetrics  `json:"m1"`
 	PeerDataRx int        `json:"peer_data_rx"` // data frames the peer received (all generations) between m0 and m1
@@ -130,6 +131,33 @@ func asciiBody(s string) []byte { return append([]byte{0x41, byte(len(s))}, s...
 
 var txnScripts = []string{"reply", "reply", "reply", "late", "none", "dup", "reject", "collide-primary", "collide-ctl", "unsolicited", "reorder", "reorder"}
 
+// txnEv is one entry of the peer-side event log (one total order: taken under one mutex, sends serialised with their
+// log entry) used for trace validation against impl/SendReply.
+type txnEv struct {
+	D    string `json:"d"` // "rx" the peer received a data primary of a call | "tx" the peer wrote a frame
+	Kind string `json:"kind"`
+	Sb   []int  `json:"sb"`
+	Tok  string `json:"tok"`
+	Gen  int    `json:"gen"`
+}
+
+type txnTrace struct {
+	T        string   `json:"t"` // "txntrace"
+	ID       int      `json:"id"`
+	Kind     string   `json:"kind"`
+	NCalls   int      `json:"ncalls"`
+	NSb      int      `json:"nsb"`
+	CallSbi  []int    `json:"call_sbi"`
+	Outcomes []string `json:"outcomes"`
+	Events   []struct {
+		D   string `json:"d"`
+		K   string `json:"k"`
+		Sbi int    `json:"sbi"`
+	} `json:"events"`
+	Delivered []int `json:"delivered"`
+	JitterMs  int   `json:"max_jitter_ms"`
+}
+
 type txnScenario struct {
 	id      int
 	kind    string // "plain" | "cancel" | "drop" | "close" | "gen"
@@ -154,6 +182,8 @@ type txnPeer struct {
 	sel     bool
 	t0      time.Time
 	open    *[]txnOpen
+	ev      *[]txnEv
+	evMu    *sync.Mutex
 }
 
 type seenInfo struct {
@@ -166,6 +196,7 @@ func (tp *txnPeer) send(kind string, f peerkit.Frame, forID int, tok string) {
 	tp.mu.Lock()
 	*tp.tx = append(*tp.tx, txnPeerTx{Seq: len(*tp.tx) + 1, Gen: tp.gen, Kind: kind, St: f.ST, Sb: f.Sb, S: f.B2 & 0x7f, F: f.B3,
 		W: f.B2&0x80 != 0, B3: f.B3, For: forID, Tok: tok, Sel: tp.sel})
+	gen := tp.gen
 	if tp.open != nil && (kind == "secondary" || kind == "reject") && forID > 0 {
 		for i := range *tp.open {
 			o := &(*tp.open)[i]
@@ -176,6 +207,13 @@ func (tp *txnPeer) send(kind string, f peerkit.Frame, forID int, tok string) {
 		}
 	}
 	tp.mu.Unlock()
+	if tp.evMu != nil { // log entry and write form one critical section: the log order is the wire order
+		tp.evMu.Lock()
+		*tp.ev = append(*tp.ev, txnEv{D: "tx", Kind: kind, Sb: f.Sb, Tok: tok, Gen: gen})
+		_ = tp.p.Send(f)
+		tp.evMu.Unlock()
+		return
+	}
 	_ = tp.p.Send(f)
 }
 
@@ -228,6 +266,11 @@ func (tp *txnPeer) loop() {
 		tok := tokenOf(f.Body)
 		tp.mu.Lock()
 		*tp.rx = append(*tp.rx, txnPeerRx{Gen: tp.gen, Tok: tok, Sb: f.Sb, W: f.B2&0x80 != 0})
+		if tp.evMu != nil {
+			tp.evMu.Lock()
+			*tp.ev = append(*tp.ev, txnEv{D: "rx", Kind: "primary", Sb: f.Sb, Tok: tok, Gen: tp.gen})
+			tp.evMu.Unlock()
+		}
 		script, known := tp.scripts[tok]
 		id := tp.ids[tok]
 		if known {
@@ -309,6 +352,8 @@ func runTxnScenario(sc txnScenario, r *rand.Rand) *txnLine {
 	var tx []txnPeerTx
 	var rx []txnPeerRx
 	opens := []txnOpen{}
+	var evs []txnEv
+	var evMu sync.Mutex
 	scenarioStart := time.Now()
 	connect := func(gen int) (*txnPeer, error) {
 		p, err := cut.ConnectPeer(nil, 5*time.Second)
@@ -321,7 +366,7 @@ func runTxnScenario(sc txnScenario, r *rand.Rand) *txnLine {
 			return nil, fmt.Errorf("generation %d could not be selected", gen)
 		}
 		tp := &txnPeer{p: p, gen: gen, scripts: map[string]string{}, ids: map[string]int{}, tx: &tx, rx: &rx, seen: map[string]seenInfo{},
-			stop: make(chan struct{}), done: make(chan struct{}), sel: true, t0: scenarioStart, open: &opens}
+			stop: make(chan struct{}), done: make(chan struct{}), sel: true, t0: scenarioStart, open: &opens, ev: &evs, evMu: &evMu}
 		return tp, nil
 	}
 	tp, err := connect(1)
@@ -707,7 +752,61 @@ func runTxnScenario(sc txnScenario, r *rand.Rand) *txnLine {
 	if gen2 != nil {
 		tp.p.Close()
 	}
+	evMu.Lock()
+	line.trace = txnMakeTrace(sc, line, evs)
+	evMu.Unlock()
 	return line
+}
+
+// txnMakeTrace abstracts one single-generation scenario to the vocabulary of impl/SendReply: system bytes become
+// small indices, the peer's log becomes rx / tx events, each call gets its outcome kind.
+func txnMakeTrace(sc txnScenario, line *txnLine, evs []txnEv) *txnTrace {
+	if line.Fault != "" || (sc.kind != "plain" && sc.kind != "cancel" && sc.kind != "lt" && sc.kind != "stall") {
+		return nil
+	}
+	idx := map[string]int{}
+	sbi := func(sb []int) int {
+		k := fmt.Sprint(sb)
+		if _, ok := idx[k]; !ok {
+			idx[k] = len(idx) + 1
+		}
+		return idx[k]
+	}
+	tr := &txnTrace{T: "txntrace", ID: sc.id, Kind: sc.kind, NCalls: len(line.Calls), CallSbi: []int{}, Outcomes: []string{}, Delivered: []int{}, JitterMs: line.JitterMs}
+	for i, c := range line.Calls {
+		if c.ID != i+1 || len(c.Sb) != 4 {
+			return nil // a call the peer never saw: outside this trace vocabulary
+		}
+		tr.CallSbi = append(tr.CallSbi, sbi(c.Sb))
+		o := c.Outcome
+		if strings.HasPrefix(o, "reject:") {
+			o = "reject"
+		}
+		tr.Outcomes = append(tr.Outcomes, o)
+	}
+	callTok := map[string]bool{}
+	for i := range line.Calls {
+		callTok["c"+strconv.Itoa(i+1)] = true
+	}
+	for _, e := range evs {
+		if e.D == "rx" && !callTok[e.Tok] {
+			continue // the library's own messages (S9 notices, ...) are not calls of the model
+		}
+		k := e.Kind
+		if e.D == "rx" {
+			k = "primary"
+		}
+		tr.Events = append(tr.Events, struct {
+			D   string `json:"d"`
+			K   string `json:"k"`
+			Sbi int    `json:"sbi"`
+		}{e.D, k, sbi(e.Sb)})
+	}
+	for _, d := range line.Delivered {
+		tr.Delivered = append(tr.Delivered, sbi(d.Sb))
+	}
+	tr.NSb = len(idx)
+	return tr
 }
 
 func runTxn(args []string) int {
@@ -717,7 +816,16 @@ func runTxn(args []string) int {
 	out := fs.String("out", "", "observation file")
 	kinds := fs.String("kinds", "plain,cancel,drop,close,gen,stall,lt,b2", "scenario kinds")
 	par := fs.Int("par", 4, "scenarios in flight")
+	traces := fs.String("traces", "", "optional file for the peer-side event traces (trace validation against impl/SendReply)")
 	fs.Parse(args)
+	var tw *rec.Writer
+	if *traces != "" {
+		var err error
+		if tw, err = rec.Create(*traces); err != nil {
+			fmt.Fprintln(os.Stderr, err)
+			return 2
+		}
+	}
 	w, err := rec.Create(*out)
 	if err != nil {
 		fmt.Fprintln(os.Stderr, err)
@@ -777,11 +885,17 @@ func runTxn(args []string) int {
 			if line.Fault != "" {
 				faults++
 			}
+			if tw != nil && line.trace != nil {
+				tw.Emit(line.trace)
+			}
 			mu.Unlock()
 			w.Emit(line)
 		}(sc)
 	}
 	wg.Wait()
+	if tw != nil {
+		_ = tw.Close()
+	}
 	if err := w.Close(); err != nil {
 		fmt.Fprintln(os.Stderr, err)
 		return 2
